@@ -163,8 +163,13 @@ var defaultAllowedParameters = []string{"grant_type", "response_type", "scope", 
 
 func (a *Request) Sanitize(allowedParameters []string) Requester {
 	b := new(Request)
+	// Do not append to allowedParameters: the slice usually comes from the shared configuration, and appending to a
+	// slice with spare capacity writes into its backing array.
 	allowed := map[string]bool{}
-	for _, v := range append(allowedParameters, defaultAllowedParameters...) {
+	for _, v := range allowedParameters {
+		allowed[v] = true
+	}
+	for _, v := range defaultAllowedParameters {
 		allowed[v] = true
 	}
 
